@@ -90,6 +90,21 @@ Theorem C08_former_witnesses_repaired :
 Proof. exact former_witnesses_agree. Qed.
 Print Assumptions C08_former_witnesses_repaired.
 
+(* Generic instantiations.  On f920b86 the annotator registered every instantiation with all parameters "constant" and
+   never visited its body: with that table the model lets the callee's element assignment land in the caller's LOCAL
+   list at -O 2 (first two facts; replayed on the real compiler by checks/c08.py, fixed by 9b42dd9).  The repaired
+   annotator analyses an instantiation made in the declaring module like any function; one made from another module
+   has no table (`fnometa`) and is never elided.  `C08_elision_sound` below quantifies over both kinds. *)
+Theorem C08_generic_instantiation_witness :
+  run_with true [[true; true]; [true]] 50 (w_generic false) = Ok [OSeq [9; 2; 3]; OSeq [9; 2; 3]]%Z /\
+  run_with false [[true; true]; [true]] 50 (w_generic false) = Ok [OSeq [1; 2; 3]; OSeq [9; 2; 3]]%Z /\
+  analyse (pfuns (w_generic false)) = [[false; true]; [true]] /\
+  run_elide 50 (w_generic false) = Ok [OSeq [1; 2; 3]; OSeq [9; 2; 3]]%Z /\
+  analyse (pfuns (w_generic true)) = [[false; false]; [true]] /\
+  run_elide 50 (w_generic true) = Ok [OSeq [1; 2; 3]; OSeq [9; 2; 3]]%Z.
+Proof. exact w_generic_facts. Qed.
+Print Assumptions C08_generic_instantiation_witness.
+
 (* elision_sound (FULL, no hypothesis).  For the repaired compiler (91b5d4a) the -O 2 parameter-copy elision never
    changes the behaviour: for every program and every fuel the run with elision equals the run in which every value
    parameter is a fresh copy.  Ingredients (Lower/Opt2Cons.v, Opt2Fbase.v, Opt2Full.v): the table of `analyse` is
